@@ -827,6 +827,8 @@ class Symex:
             else:
                 if v is None:
                     raise Raised("TypeError", "cannot unpack None", t)
+                if isinstance(v, Obj) and isinstance(v.attrs.get("_fields"), tuple):
+                    v = [v.attrs[f] for f in v.attrs["_fields"]]
                 try:
                     vs = list(v)
                 except TypeError:
@@ -2066,6 +2068,12 @@ class Symex:
                     if not state:
                         out.append(x)
             return out
+        if short == "namedtuple" and len(args) == 2 and isinstance(args[0], str) and set(kw) <= {"defaults"} \
+                and isinstance(args[1], (str, list, tuple)) and not isinstance(kw.get("defaults"), T):
+            # collections.namedtuple(typename, field_names[, defaults=...]): a factory of plain records
+            fields = args[1].replace(",", " ").split() if isinstance(args[1], str) else list(args[1])
+            if all(isinstance(f, str) for f in fields):
+                return _NamedTupleFactory(args[0], tuple(fields), tuple(kw.get("defaults") or ()))
         if name == "iter" and len(args) == 1 and not kw:
             # an iterator is a private list that next() / for-loops consume from the front
             if isinstance(args[0], _Iter):
@@ -2581,6 +2589,33 @@ class _DefaultDict(dict):
         for k, v in self.items():
             dict.__setitem__(c, k, copy.deepcopy(v, memo))
         return c
+
+
+class _NamedTupleFactory:
+    """The class object returned by collections.namedtuple(...): calling it builds a record with tuple behaviour."""
+
+    def __init__(self, typename, fields, defaults):
+        self.typename, self.fields, self.defaults = typename, fields, defaults
+
+    def __call__(self, sx, args, kw):
+        if len(args) > len(self.fields) or any(k not in self.fields for k in kw):
+            raise Raised("TypeError", None, None)
+        vals = dict(zip(self.fields, args))
+        for k, v in kw.items():
+            if k in vals:
+                raise Raised("TypeError", None, None)
+            vals[k] = v
+        for f, d in zip(self.fields[len(self.fields) - len(self.defaults):], self.defaults):
+            vals.setdefault(f, d)
+        if len(vals) != len(self.fields):
+            raise Raised("TypeError", None, None)
+        sx.fresh_n += 1
+        o = Obj(None, f"<{self.typename} #{sx.fresh_n}>", **vals)
+        o.attrs["_fields"] = self.fields
+        return o
+
+    def sx_isinstance(self, sx, cname):
+        return cname == "type"
 
 
 class _Iter(list):
